@@ -1,5 +1,5 @@
 CONSTANTS
-  InitCap = 0
+  InitCap = 2
   Vals = {7, 9}
   MaxCap = 4
   Depth = 5
